@@ -273,6 +273,37 @@ func TestRepositoryMatchesModel(t *testing.T) {
 			t.Fatalf("valid rule sets were rejected in order %v: %v\ncase: %+v", perm, err, c.describe())
 		}
 
+		// the second repository additionally sees a rule set which is refused (it claims a path expression another rule
+		// set owns, after bringing some acceptable rules of its own): which rule is selected must not depend on that either
+		rejected := false
+
+		if rapid.Bool().Draw(t, "rejectedLoad") {
+			var intruder []rulecfg.Rule
+
+			for k, n := 0, rapid.IntRange(1, 3).Draw(t, "ownRules"); k < n; k++ {
+				// expressions below or next to existing ones, so that the nodes of the tree get new children
+				base := c.Rules[rapid.IntRange(0, len(c.Rules)-1).Draw(t, "near")].Exprs[0].String()
+				path := rapid.SampledFrom([]string{base + "/zz" + fmt.Sprint(k), "/zz" + fmt.Sprint(k) + base, "/a/zz" + fmt.Sprint(k), "/b/zz" + fmt.Sprint(k)}).Draw(t, "ownPath")
+
+				if strings.Contains(base, "*") {
+					path = "/zz" + fmt.Sprint(k)
+				}
+
+				intruder = append(intruder, rulecfg.Rule{ID: fmt.Sprintf("own%d", k), Matcher: rulecfg.Matcher{Routes: []rulecfg.Route{{Path: path}}},
+					Execute: []config.MechanismConfig{{"authenticator": "anon"}}})
+			}
+
+			victim := c.Rules[rapid.IntRange(0, len(c.Rules)-1).Draw(t, "claimed")]
+			intruder = append(intruder, rulecfg.Rule{ID: "claims", Matcher: rulecfg.Matcher{Routes: []rulecfg.Route{{Path: victim.Exprs[0].String()}}},
+				Execute: []config.MechanismConfig{{"authenticator": "anon"}}})
+
+			if lerr := w2.Load("intruder", intruder...); lerr == nil {
+				t.Fatalf("a rule set claiming the path expression %s of %s/%s was accepted\ncase: %+v", victim.Exprs[0], victim.Src, victim.ID, c.describe())
+			}
+
+			rejected = true
+		}
+
 		npaths := rapid.IntRange(1, 6).Draw(t, "npaths")
 		for i := 0; i < npaths; i++ {
 			method := rapid.SampledFrom([]string{"GET", "POST"}).Draw(t, "method")
@@ -308,6 +339,7 @@ func TestRepositoryMatchesModel(t *testing.T) {
 			matching := vkit.CountMatching(exprs, path)
 			vkit.S.Label(fmt.Sprintf("matching_exprs=%d", min(matching, 4)))
 			vkit.S.LabelIf(backtracked, "backtracked")
+			vkit.S.LabelIf(rejected, "after_a_refused_rule_set")
 			vkit.S.LabelIf(inspected > 0 && !ok, "stopped_or_exhausted")
 			vkit.S.LabelIf(strings.Contains(path, "//") || strings.HasSuffix(path, "/"), "empty_segment_in_path")
 			vkit.S.Label("answer=" + map[bool]string{true: "rule", false: want}[ok])
@@ -323,8 +355,8 @@ func TestRepositoryMatchesModel(t *testing.T) {
 			}
 
 			if got2 != got1 {
-				t.Fatalf("load order dependence: %s %s selected %s after loading %v but %s after loading %v\ncase: %+v",
-					method, path, got1, order, got2, perm, c.describe())
+				t.Fatalf("load order dependence: %s %s selected %s after loading %v but %s after loading %v (followed by a refused rule set: %v)\ncase: %+v",
+					method, path, got1, order, got2, perm, rejected, c.describe())
 			}
 		}
 	})
